@@ -14,7 +14,7 @@ META = {
                                                       '_run_equal_interval', 'natural_breaks', '_run_natural_break', '_run_jenks', '_run_numpy_jenks_matrices')],
     'bounds': {'quick': 'reclassify: every bin count 1..6, bins symbolic strictly ascending, value symbolic (NaN/+-inf allowed), new values symbolic; binary: <=3 listed values, '
                         'cells NaN/inf/finite, float and int dtypes; equal_interval / quantile: rasters of 3 and 4 cells (NaN allowed), k in {2,3}; natural_breaks: 3 and 4 cells, k=2; NOT symbolic: equal_interval on 144 small integer ranges x k in {2,3,5,7} executed with real float arithmetic (enumeration of the np.arange overshoot / last-cut rounding cases that exact reals cannot reach)',
-               'thorough': 'reclassify up to 8 bins; equal_interval / quantile 5 cells k in {2,3,4}; natural_breaks 5 cells k = 2 (class range / order claims; the optimality claim is decided up to 4 cells with k = 2, ties allowed on 3 cells and for one tied pair on 4 - beyond that z3 answers unknown after 30 s per query)'},
+               'thorough': 'reclassify up to 8 bins; equal_interval / quantile 5 cells k in {2,3,4}; natural_breaks 5 cells k = 2 (class range / order claims; the optimality claim is decided on 3 cells (ties allowed) and for one tied pair on 4 cells - the general 4-cell and all 5-cell cases come back unknown from z3 under load, which would make the run inconclusive)'},
     'stubs': ['numba.jit = identity', 'np.percentile = sorting network + linear interpolation', 'np.unique / sort = forking insertion sort', 'print / warnings = no-op'],
     'outside': ['single-precision rounding of break values (the guards bins[-1] = max exist for floats; in exact arithmetic they are not needed, so a mutant deleting them is invisible here)',
                 'np.arange overshoot branch for symbolic inputs (dead under exact arithmetic; executed only by the concrete landmark sweep, which is enumeration and not a solver verdict)', 'natural_breaks sampling branch (num_sample < size)', 'rasters with fewer than two distinct finite values for equal_interval'],
@@ -60,7 +60,7 @@ def jobs(tier, seed):
             if shp == (1, 5) and k == 3:
                 continue        # the Jenks recurrence over five symbolic values with three classes: z3 answers unknown on path feasibility (measured)
             out.append({'name': 'natural_breaks-%dx%d-k%d' % (shp[0], shp[1], k), 'kind': 'natural_breaks', 'shape': list(shp), 'k': k,
-                        'optimality': (tier != 'quick' and shp[0] * shp[1] <= 4 and k == 2) or shp == (1, 3)})
+                        'optimality': shp == (1, 3)})
     return out
 
 
